@@ -1,4 +1,5 @@
 import Ogen.GenOrder_proof
+import Ogen.RespOrder_proof
 import Ogen.Generated.Facts_genorder
 /-!
 # C10 — generation is deterministic and free of data races (partial)
@@ -89,5 +90,15 @@ example :
     (w₁.sched.filterMap (fun i => (exTmpls[i]?).map (fun t : Tmpl => t.file))).Nodup := by
   refine ⟨?_, List.Perm.swap 1 0 [], by decide⟩
   intro n; simp; constructor <;> (rintro (h | h) <;> simp [h])
+
+/-- **the order of the response cases** (`ir.sortResponseInfos`, after fix 6497f487): two listings of the same entries of
+    the status-code map — in whatever order the map iteration produced them — sort to the same sequence -/
+theorem response_order_independent (l₁ l₂ : List RespOrder.K) (hp : l₁.Perm l₂) (hn : l₁.Nodup) :
+    RespOrder.sort RespOrder.lt l₁ = RespOrder.sort RespOrder.lt l₂ := RespOrder.sort_order_independent l₁ l₂ hp hn
+
+/-- before the fix two entries that carry their status code (folded to 999) under one content type tied (witness) -/
+theorem response_order_depended_on_iteration_before_fix :
+    RespOrder.sort RespOrder.ltOld [(999, 1, 404), (999, 1, 400)] ≠
+      RespOrder.sort RespOrder.ltOld [(999, 1, 400), (999, 1, 404)] := RespOrder.old_order_depends_on_iteration
 
 end C10
